@@ -48,6 +48,9 @@ type Engine struct {
 	fnStats            map[string]*FnStat
 	kindSigs           map[string]*types.Signature
 	axiomList          []axiom
+	defs               map[string]*SpecDef
+	replayConsts       map[string]string
+	bgGlobals          map[string]bool
 	curReplay          string
 	replayTerms        map[string][]ReplayTerm // function -> named terms to read back from a model
 	bgT, vcT, weT, esT types.Type
@@ -64,7 +67,7 @@ func newEngine(p *Program) *Engine {
 		arrSorts: map[string]string{}, refArr: map[string]bool{}, ghostInit: map[string]string{}, strLits: map[string]int{}, funcIDs: map[string]int{},
 		funcByID: map[int]*ssa.Function{}, globals: map[string]int{}, warnings: map[string]int{}, assumptions: map[string]bool{},
 		unsupported: map[string][]string{}, loops: map[*ssa.Function]*loopInfo{}, wsCache: map[*ssa.Function][]string{},
-		wsBusy: map[*ssa.Function]bool{}, maxPaths: 5000, kindSigs: map[string]*types.Signature{}, replayTerms: map[string][]ReplayTerm{}, fnStats: map[string]*FnStat{}}
+		wsBusy: map[*ssa.Function]bool{}, maxPaths: 5000, kindSigs: map[string]*types.Signature{}, replayTerms: map[string][]ReplayTerm{}, defs: map[string]*SpecDef{}, replayConsts: map[string]string{}, fnStats: map[string]*FnStat{}}
 }
 
 func (e *Engine) warn(format string, a ...interface{}) {
@@ -246,8 +249,59 @@ func (st *State) checkNonNil(term string, pos token.Pos, what string) {
 func arrSort(s Sort) string  { return "(Array Int " + smtSort(s) + ")" }
 func arr2Sort(s Sort) string { return "(Array Int (Array Int " + smtSort(s) + "))" }
 
+// initOnlyBackground reports whether a global is assigned only in the package initialiser, with context.Background().
+func (e *Engine) initOnlyBackground(root string) bool {
+	if e.bgGlobals == nil {
+		e.bgGlobals = map[string]bool{}
+		cand := map[*ssa.Global]bool{}
+		stores := map[*ssa.Global]int{}
+		for _, fn := range e.P.Funcs {
+			if fn == e.P.Pkg.Func("init") {
+				continue
+			}
+			for _, b := range fn.Blocks {
+				for _, in := range b.Instrs {
+					if s, ok := in.(*ssa.Store); ok {
+						if g, ok := s.Addr.(*ssa.Global); ok {
+							stores[g]++
+						}
+					}
+				}
+			}
+		}
+		if init := e.P.Pkg.Func("init"); init != nil {
+			for _, b := range init.Blocks {
+				for _, in := range b.Instrs {
+					if s, ok := in.(*ssa.Store); ok {
+						if g, ok := s.Addr.(*ssa.Global); ok {
+							stores[g]++
+							if c, ok := s.Val.(*ssa.Call); ok {
+								if f, ok := c.Call.Value.(*ssa.Function); ok && f.String() == "context.Background" {
+									cand[g] = true
+								}
+							}
+						}
+					}
+				}
+			}
+		}
+		for g := range cand {
+			if stores[g] == 1 {
+				e.bgGlobals[e.globalRef(g)] = true
+			}
+		}
+	}
+	return e.bgGlobals[root]
+}
+
 func (st *State) loadPtr(p *Ptr, pos token.Pos) Val {
 	e := st.e
+	if p.Kind == PObj && p.Path == "" && isConcreteNum(p.Root) && e.initOnlyBackground(p.Root) {
+		bg := st.ctxBackground()
+		bg.T = p.T
+		e.assumeUsed("package variable bgCtx is assigned once, in the package initialiser, with context.Background()")
+		return bg
+	}
 	v := Val{T: p.T}
 	comps := e.flatten(p.T)
 	switch p.Kind {
@@ -433,4 +487,76 @@ func (e *Engine) loopsOf(fn *ssa.Function) *loopInfo {
 	}
 	e.loops[fn] = li
 	return li
+}
+
+// typeByString finds a type by its package-relative string among the types used by the current function.
+func (e *Engine) typeByString(name string) types.Type {
+	fn := e.P.Funcs[e.curFn]
+	if fn == nil {
+		return nil
+	}
+	seen := map[types.Type]bool{}
+	var found types.Type
+	var visit func(t types.Type)
+	visit = func(t types.Type) {
+		if t == nil || seen[t] || found != nil {
+			return
+		}
+		seen[t] = true
+		if e.P.relType(t) == name {
+			found = t
+			return
+		}
+		switch u := t.(type) {
+		case *types.Pointer:
+			visit(u.Elem())
+		case *types.Slice:
+			visit(u.Elem())
+		case *types.Array:
+			visit(u.Elem())
+		case *types.Map:
+			visit(u.Key())
+			visit(u.Elem())
+		case *types.Named:
+			if st, ok := u.Underlying().(*types.Struct); ok {
+				for i := 0; i < st.NumFields(); i++ {
+					visit(st.Field(i).Type())
+				}
+			}
+		case *types.Tuple:
+			for i := 0; i < u.Len(); i++ {
+				visit(u.At(i).Type())
+			}
+		case *types.Signature:
+			visit(u.Params())
+			visit(u.Results())
+		}
+	}
+	var fns []*ssa.Function
+	fns = append(fns, fn)
+	fns = append(fns, fn.AnonFuncs...)
+	var names []string
+	for n := range e.P.Funcs {
+		names = append(names, n)
+	}
+	sort.Strings(names)
+	for _, n := range names {
+		fns = append(fns, e.P.Funcs[n])
+	}
+	for _, f := range fns {
+		if found != nil {
+			break
+		}
+		for _, p := range f.Params {
+			visit(p.Type())
+		}
+		for _, b := range f.Blocks {
+			for _, in := range b.Instrs {
+				if v, ok := in.(ssa.Value); ok {
+					visit(v.Type())
+				}
+			}
+		}
+	}
+	return found
 }
